@@ -1,0 +1,53 @@
+//go:build verif
+
+package parser
+
+// Read-only accessors for the verification harness (build tag `verif`).
+
+// VerifTokens runs the lexer alone and returns everything it emits until it stops.
+func VerifTokens(src string) []Token {
+	l := Lex(src)
+	res := []Token{}
+	for t := range l.tokens {
+		res = append(res, t)
+	}
+	return res
+}
+
+// VerifRest returns the epilogue slice of a parsed file.
+func VerifRest(r *RootNode) string { return r.rest }
+
+// VerifRule is one rule as the visitor recorded it.
+type VerifRule struct {
+	LineNo     int
+	Left       string
+	Right      []string
+	PrecSym    string
+	HasPrec    bool
+	ActionCode string
+}
+
+// VerifRules returns the visitor's rule list (user rule i is grammar rule i+1).
+func (v *RootVistor) VerifRules() []VerifRule {
+	res := []VerifRule{}
+	for _, r := range v.rules {
+		vr := VerifRule{LineNo: r.LineNo, Left: r.LeftPart.Name, ActionCode: r.ActionCode}
+		for _, s := range r.RighPart {
+			vr.Right = append(vr.Right, s.Name)
+		}
+		if r.PrecIdSym != nil {
+			vr.HasPrec = true
+			vr.PrecSym = r.PrecIdSym.Id.Name
+		}
+		res = append(res, vr)
+	}
+	return res
+}
+
+// VerifStartSym returns the name of the declared start symbol ("" if none resolved).
+func (v *RootVistor) VerifStartSym() string {
+	if v.startSym == nil {
+		return ""
+	}
+	return v.startSym.Name
+}
